@@ -275,6 +275,9 @@ func account(r *mon.Report, w *W, res *runResult, plan *faultPlan, idx int) {
 				cls = class(S.Claims[i])
 			}
 		}
+		if j.Reaper == "health" && j.Facts["population"] != nil {
+			cls += fmt.Sprintf("+unhealthy%vof%v", j.Facts["unhealthy"], j.Facts["population"])
+		}
 		r.Sig("%s|%s|%s|fault=%s", j.Reaper, cls, offLabel(S), fault)
 		r.DistinctAdd("deleted_state_classes", j.Reaper+"|"+cls+"|"+j.Why)
 		if !j.OK {
